@@ -214,7 +214,7 @@ def check_len(ctx, F):
         if empty[0]:
             verdict['empty'] = (extra == ('int', 0), sym.show(extra))
         else:
-            a = sym.affine(extra)
+            a = sym.affine(effects.rebuild(extra, lambda n_: n_[2] if n_ and n_[0] == 'cast' else None))
             atoms = [at for k, (c, at) in a[0].items()] if a else []
             ok = a is not None and a[1] == 1 and len(atoms) == 1 and atoms[0][0] == 'call' and str(atoms[0][1]).endswith('trailing_zeros') and atoms[0][2][0] == _mask_in('mask_last_written') and list(a[0].values())[0][0] == 1
             verdict['partial'] = (ok, sym.show(extra))
